@@ -145,3 +145,90 @@ pub fn run(input: &Value) -> Value {
   }
   json!({"outputs": [{"recorded": out}]})
 }
+
+/// C01 edges replay: a full `ModuleGraph::build` of one root whose dependency records are dictated through a custom
+/// analyzer + resolver; observes which targets the builder loaded and what it left in the root's dependency records.
+pub fn run_edges(input: &Value) -> Value {
+  let w = &input["world"];
+  let kind = match w["graph_kind"].as_u64().unwrap() { 0 => GraphKind::All, 1 => GraphKind::CodeOnly, _ => GraphKind::TypesOnly };
+  let mut table = HashMap::new();
+  let mut deps = vec![];
+  for (d, e) in w["deps"].as_array().unwrap().iter().enumerate() {
+    if !e["p"].as_bool().unwrap() { continue; }
+    let (ck, ct, tk, tt) = (e["ck"].as_u64().unwrap(), e["ct"].as_u64().unwrap(), e["tk"].as_u64().unwrap(), e["tt"].as_u64().unwrap());
+    let text = format!("./e{d}");
+    let dynamic = e["dyn"].as_bool().unwrap();
+    if ck == 0 {
+      // type-only import: no code resolution, the type target is the resolver's Types answer for the text
+      table.insert((text.clone(), 1, 0), if tk == 1 { Some(tt) } else { None });
+      deps.push(DependencyDescriptor::Static(StaticDependencyDescriptor {
+        kind: StaticDependencyKind::ImportType, types_specifier: None, specifier: text, specifier_range: PositionRange::zeroed(),
+        is_side_effect: false, import_attributes: ImportAttributes::None }));
+      continue;
+    }
+    table.insert((text.clone(), 0, 0), if ck == 1 { Some(ct) } else { None });
+    let types_specifier = if tk != 0 {
+      table.insert((format!("./t{d}"), 1, 0), if tk == 1 { Some(tt) } else { None });
+      Some(SpecifierWithRange { text: format!("./t{d}"), range: PositionRange::zeroed() })
+    } else {
+      // no separate type target: the Types answer equals the code answer, so no type resolution is recorded
+      table.insert((text.clone(), 1, 0), if ck == 1 { Some(ct) } else { None });
+      None
+    };
+    if dynamic {
+      deps.push(DependencyDescriptor::Dynamic(DynamicDependencyDescriptor {
+        kind: DynamicDependencyKind::Import, types_specifier, argument: DynamicArgument::String(text), argument_range: PositionRange::zeroed(),
+        import_attributes: ImportAttributes::None }));
+    } else {
+      deps.push(DependencyDescriptor::Static(StaticDependencyDescriptor {
+        kind: StaticDependencyKind::Import, types_specifier, specifier: text, specifier_range: PositionRange::zeroed(),
+        is_side_effect: false, import_attributes: ImportAttributes::None }));
+    }
+  }
+  #[derive(Debug)]
+  struct R(HashMap<(String, u64, u64), Option<u64>>);
+  impl Resolver for R {
+    fn resolve(&self, text: &str, _r: &Range, kind: ResolutionKind) -> Result<ModuleSpecifier, ResolveError> {
+      match self.0.get(&(text.to_string(), if kind.is_types() { 1 } else { 0 }, 0)) {
+        Some(Some(t)) => Ok(ModuleSpecifier::parse(&format!("file:///u{t}.ts")).unwrap()),
+        _ => Err(ResolveError::Other(deno_error::JsErrorBox::generic("verif"))),
+      }
+    }
+  }
+  struct A(ModuleInfo);
+  #[async_trait::async_trait(?Send)]
+  impl ModuleAnalyzer for A {
+    async fn analyze(&self, s: &ModuleSpecifier, _t: Arc<str>, _m: MediaType) -> Result<ModuleInfo, deno_error::JsErrorBox> {
+      Ok(if s.as_str() == "file:///root.ts" { self.0.clone() } else { ModuleInfo::default() })
+    }
+  }
+  let resolver = R(table);
+  let analyzer = A(ModuleInfo { dependencies: deps, ..Default::default() });
+  let mut sources: Vec<(String, Source<String, String>)> = vec![("file:///root.ts".to_string(), Source::Module { specifier: "file:///root.ts".to_string(), maybe_headers: None, content: "".to_string() })];
+  for u in 0..3 {
+    let s = format!("file:///u{u}.ts");
+    sources.push((s.clone(), Source::Module { specifier: s, maybe_headers: None, content: "".to_string() }));
+  }
+  let loader = MemoryLoader::new(sources, vec![]);
+  let mut graph = ModuleGraph::new(kind);
+  futures::executor::block_on(graph.build(
+    vec![ModuleSpecifier::parse("file:///root.ts").unwrap()],
+    vec![],
+    &loader,
+    BuildOptions {
+      is_dynamic: w["in_dynamic_branch"].as_bool().unwrap(),
+      skip_dynamic_deps: w["skip_dynamic_deps"].as_bool().unwrap(),
+      resolver: Some(&resolver),
+      module_analyzer: &analyzer,
+      ..Default::default()
+    },
+  ));
+  let requested: Vec<u64> = (0..3u64).filter(|u| graph.contains(&ModuleSpecifier::parse(&format!("file:///u{u}.ts")).unwrap())).collect();
+  let root = graph.get(&ModuleSpecifier::parse("file:///root.ts").unwrap()).unwrap();
+  let tag = |r: &Resolution| match r { Resolution::None => 0, Resolution::Ok(_) => 1, Resolution::Err(_) => 2 };
+  let mut recs = serde_json::Map::new();
+  for (text, dep) in root.dependencies() {
+    recs.insert(text.clone(), json!([tag(&dep.maybe_code), tag(&dep.maybe_type)]));
+  }
+  json!({"outputs": [{"requested": requested, "records": recs}]})
+}
